@@ -184,7 +184,7 @@ package s2
 //@   loop 1: invariant [scratch] vcFreshSlice(e.results) && e.distanceLimit != nil && e.opts == opts && e.testedEdges != nil && !vcSame(e.testedEdges, old(e.testedEdges)) && e.target == target && (forall k int :: 0 <= k && k < len(e.results) ==> e.results[k].distance != nil)
 
 //@ func sortAndUniqueResults(results []EdgeQueryResult) []EdgeQueryResult
-//@   assumed "verified under C08"
+//@   assumed "sort.Slice followed by in-place removal of adjacent duplicates: sortedness needs the order of the distance interface (not modelled); only the frame and the length bound are relied on"
 //@   requires forall k int :: 0 <= k && k < len(results) ==> results[k].distance != nil
 //@   modifies results[*]
 //@   ensures len(result) <= len(results)
